@@ -245,7 +245,7 @@ def check_case(ctx, case, nsample=1500):
     # 5 numbering
     lows = [b.bounds[1] for b in blocks]
     for i in range(len(lows) - 1):
-        if lows[i] > lows[i + 1] + 1e-9:
+        if lows[i] > lows[i + 1] + 2e-6:   # equal lowest y of raw blocks can differ by the simplification tolerance (5e-7) after rounding
             ctx.fail('spec', 'numbering', {**info, 'lowest_y': lows}, f'blocks {i} and {i + 1} are not numbered bottom-to-top: lowest y {lows[i]:.6f} > {lows[i + 1]:.6f}', 'numbering')
             ok = False
             break
